@@ -32,7 +32,7 @@ LEVEL_NOTE = ("events are >= 3 ms apart and decision windows are 1 ms, so verdic
               "fake API / component graph; warnings (non-critical errors) count as healthy")
 RULE = ("seeded scripts; distinct = canonical script JSON; non-trivial = >=1 fault or silence and >=1 failed set-power "
         "while working")
-REQUIRED_BUCKETS = ["manager-tier:all-calls-of-the-next-request-succeed", "manager-tier:failed-batteries-reported-uncertain", "fault:state", "fault:relay", "fault:cap", "fault:crit", "fault:stale", "inv-fault:state",
+REQUIRED_BUCKETS = ["identical-battery-sample-delivered-again-when-too-old", "manager-tier:all-calls-of-the-next-request-succeed", "manager-tier:failed-batteries-reported-uncertain", "fault:state", "fault:relay", "fault:cap", "fault:crit", "fault:stale", "inv-fault:state",
                     "inv-fault:crit", "silence>maxage:bat", "silence>maxage:inv", "silence<maxage", "set-power-failed",
                     "set-power-succeeded", "blocked-twice(back-off)", "back-off-capped", "recovered", "uncertain-seen",
                     "pool-fallback-to-uncertain", "pool-tier", "pool-fallback-to-uncertain(live)",
@@ -69,12 +69,21 @@ def gen(rng: Any, tier: str, i: int) -> Any:
     ev: list[list[Any]] = []
     t = 0.0
     bsil = isil = 0.0
+    stuck = 0.0
     failmode = rng.random() < 0.5  # bursts of failed set-power results to walk the back-off ladder
     calm = rng.random() < 0.35     # almost no faults: lets the back-off ladder reach its cap
     while t < 60.0:
         dt = rng.choice([0.2, 0.2, 0.5, 1.0])
         t = round(t + dt, 3)
-        if bsil > 0:
+        if stuck > 0:
+            # a gateway that keeps delivering the last reading of a device that went silent: the identical message
+            # (same timestamp, same content) again and again
+            stuck -= dt
+            ev.append([round(t + 0.0015, 4), "bat", "repeat", 0.0])  # (off the 0.1 s grid: its age is never exactly the maximum)
+        elif rng.random() < 0.01 and ev and any(e[1] == "bat" for e in ev):
+            stuck = rng.choice([2.0, MAXAGE + 1.0, 2 * MAXAGE])
+            ev.append([round(t + 0.0015, 4), "bat", "repeat", 0.0])
+        elif bsil > 0:
             bsil -= dt
         elif rng.random() < (0.005 if calm else 0.04):
             bsil = rng.choice([2.0, MAXAGE - 0.1, MAXAGE + 0.3, 3 * MAXAGE])
@@ -197,12 +206,17 @@ async def _drive(case: dict[str, Any], out: dict[str, Any]) -> None:
 
         ct = asyncio.create_task(collect())
         bmsg, imsg = _msgs()
+        last_b: Any = None
         for t, kind, a, b in case["events"]:
             dt = t0 + t - loop.time()
             if dt > 0:
                 await asyncio.sleep(dt)
             if kind == "bat":
-                await api.feed(BAT, bmsg(a, b))
+                if a == "repeat" and last_b is not None:
+                    await api.feed(BAT, last_b)  # the very same sample again
+                    continue
+                last_b = bmsg(None if a == "repeat" else a, b)
+                await api.feed(BAT, last_b)
             elif kind == "inv":
                 await api.feed(INV, imsg(a, b))
             else:
@@ -282,7 +296,17 @@ def check(case: dict[str, Any], rec: Any) -> None:
     rec.count("scripts_run")
     statuses = out["statuses"]
     events = []
+    prev_b: Any = None  # (time sent, fault, age at that time) of the last *new* battery message
     for t, kind, a, b in case["events"]:
+        if kind == "bat" and a == "repeat" and prev_b is not None:
+            # the identical sample again: as old as its timestamp says
+            a, b = prev_b[1], prev_b[2] + (t - prev_b[0])
+            rec.bucket("identical-battery-sample-delivered-again")
+            if b > MAXAGE:
+                rec.bucket("identical-battery-sample-delivered-again-when-too-old")
+        elif kind == "bat":
+            a = None if a == "repeat" else a
+            prev_b = (t, a, b)
         if kind == "bat":
             healthy = a in (None, "warn") and b <= MAXAGE
             events.append((t, "bat", healthy))
@@ -511,8 +535,35 @@ async def _drive_pool(case: dict[str, Any], out: dict[str, Any]) -> None:
     api.rx_limit = 500
     ch = Broadcast(name="pool", resend_latest=True)
     rx = ch.new_receiver(limit=2000)
+    # every status change a battery tracker announces, counted where it hands it over (the constructor argument
+    # `status_sender`); and every pool notification, counted on arrival by a second receiver
+    announced: list[Any] = out.setdefault("announced", [])
+    notified: list[Any] = out.setdefault("notified", [])
+
+    class _CountingSender:
+        def __init__(self, inner: Any) -> None:
+            self._inner = inner
+
+        async def send(self, msg: Any) -> None:
+            announced.append((msg.component_id, msg.value.name))
+            await self._inner.send(msg)
+
+        def __getattr__(self, k: str) -> Any:
+            return getattr(self._inner, k)
+
+    class _Tracker(BatteryStatusTracker):
+        def __init__(self, *a: Any, status_sender: Any, **k: Any) -> None:
+            super().__init__(*a, status_sender=_CountingSender(status_sender), **k)
+
+    rx_all = ch.new_receiver(limit=5000)
+
+    async def _count() -> None:
+        async for _st in rx_all:
+            notified.append(1)
+
+    counter_task = asyncio.create_task(_count())
     pool = ComponentPoolStatusTracker({10 + b for b in range(nb)}, ch.new_sender(), timedelta(seconds=MAXAGE),
-                                      timedelta(seconds=MAXBLOCK), BatteryStatusTracker)
+                                      timedelta(seconds=MAXBLOCK), _Tracker)
     await asyncio.sleep(0.01)
     bmsg, imsg = _msgs()
     import dataclasses
@@ -565,6 +616,8 @@ async def _drive_pool(case: dict[str, Any], out: dict[str, Any]) -> None:
             t += 0.5
         await pool.update_status({10 + b for b in range(nb)}, set())
         await asyncio.sleep(0.05)
+    await asyncio.sleep(0.05)
+    counter_task.cancel()
     await pool.stop()
 
 
@@ -573,6 +626,13 @@ def check_pool(case: dict[str, Any], rec: Any) -> None:
     run_virtual(lambda: _drive_pool(case, out))
     rec.bucket("pool-tier")
     nb = case["nb"]
+    # only on change, at the pool's channel: one pool notification per status change announced by a battery tracker
+    rec.count("pool_notifications_observed", len(out.get("notified", [])))
+    if len(out.get("notified", [])) != len(out.get("announced", [])):
+        rec.violation("pool-notifications-differ-from-the-announced-status-changes",
+                      {"batteries": nb, "status_changes_announced": len(out.get("announced", [])),
+                       "pool_notifications": len(out.get("notified", [])), "first_changes": out.get("announced", [])[:12]})
+        return
     for cp in out["checkpoints"]:
         ph = cp["phase"]
         healthy = {10 + b for b in range(nb) if ph["healthy"][b] and not ph.get("then_unhealthy", [False] * nb)[b]}
